@@ -135,7 +135,9 @@ def gen_docstring(draw: Any, b: Builder, indent: int, kind: str, params: List[st
                     it[li] += ' ' + xref(fmt, token)
                     planted.append({'kind': 'xref', 'block': {'t': 'item', 'lines': it, 'of': blk, 'index': ii}, 'line': li, 'token': token})
         elif pk == 'unknown-field':
-            token = b.tok('unknownf')
+            # the same unknown tag may occur more than once in a docstring: each occurrence is a problem of its own
+            earlier = [q['token'] for q in planted if q['kind'] == 'unknown-field']
+            token = draw(st.sampled_from(earlier)) if earlier and draw(st.booleans()) else b.tok('unknownf')
             f = {'tag': token, 'arg': None, 'lines': [b.tok('w')] + ([b.tok('w')] if draw(st.booleans()) else [])}
             fields.insert(draw(st.integers(0, len(fields))), f)
             planted.append({'kind': 'unknown-field', 'block': f, 'line': 0, 'token': token})
@@ -324,6 +326,19 @@ def check_module(case: Dict[str, Any]) -> Tuple[List[Tuple[str, str]], Dict[str,
                 out.append(('markup-error-line', '%s\nmarkup error planted in block lines %s (allowed %s) is not reported there; messages:\n%s' % (desc, p['block'], p['allowed'], shown)))
             continue
         rel = [(l, m) for _pth, l, m in msgs if p['token'] in m]
+        same = [q for q in problems if q['token'] == p['token']]
+        if len(same) > 1:
+            # several planted problems share the token: each needs a report of its own, each report belongs to one of them
+            mine = [(l, m) for l, m in rel if isinstance(l, int) and p['allowed'][0] <= l <= p['allowed'][1]]
+            if not mine:
+                out.append(('problem-not-reported', '%s\nplanted %s %s (block lines %s; the tag occurs %d times in the docstring) is not reported; messages:\n%s' % (
+                    desc, p['kind'], p['token'], p['block'], len(same), shown)))
+            info['reports'] += len(mine)
+            for l, m in rel:
+                if not any(isinstance(l, int) and q['allowed'][0] <= l <= q['allowed'][1] for q in same):
+                    out.append(('wrong-line:' + p['kind'], '%s\nplanted %s %s, reported at line %s which is in none of the blocks %s: %s' % (
+                        desc, p['kind'], p['token'], l, [q['allowed'] for q in same], m)))
+            continue
         if not rel:
             out.append(('problem-not-reported', '%s\nplanted %s %s (block lines %s) is not reported; messages:\n%s' % (desc, p['kind'], p['token'], p['block'], shown)))
             continue
